@@ -69,8 +69,45 @@ def problems_of(vec, observed):
     return []
 
 
+_FORMATS = {}
+
+
+def written_back(vec):
+    """
+    The other direction: the rows the specification reads from the input are written with FixedRowWriter; the text must be
+    the records with the declared line delimiter after each, and reading it gives the rows again (whatever the cells hold).
+    """
+    from cutplace import data, rowio
+    if vec["parse"][0] != "ok" or not vec["parse"][1]:
+        return []
+    rows = [[text_of(item) for item in row] for row in vec["parse"][1]]
+    if vec["delim"] not in _FORMATS:
+        data_format = data.DataFormat("fixed")
+        data_format.set_property("line_delimiter", vec["delim"])
+        data_format.validate()
+        _FORMATS[vec["delim"]] = data_format
+    fields = [("f%d" % i, width) for i, width in enumerate(vec["widths"], 1)]
+    target = io.StringIO(newline="")
+    what = "FixedRowWriter(widths=%s, line delimiter=%s).write_rows(%r)" % (vec["widths"], vec["delim"], rows)
+    try:
+        writer = rowio.FixedRowWriter(target, _FORMATS[vec["delim"]], fields)
+        writer.write_rows(rows)
+        text = target.getvalue()
+        back = list(rowio.fixed_rows(io.StringIO(text, newline=""), "utf-8", fields, DELIM[vec["delim"]]))
+    except Exception as error:  # noqa
+        return ["%s fails: %s: %s" % (what, type(error).__name__, error)]
+    separator = __import__("os").linesep if vec["delim"] == "any" else (DELIM[vec["delim"]] or "")
+    expected_text = "".join("".join(row) + separator for row in rows)
+    problems = []
+    if text != expected_text:
+        problems.append("%s writes %r but must write %r" % (what, text, expected_text))
+    if back != rows:
+        problems.append("%s: the output %r reads back as %r" % (what, text, back))
+    return problems
+
+
 def _job(vec):
-    return problems_of(vec, observe(vec))
+    return problems_of(vec, observe(vec)) + written_back(vec)
 
 
 def replay(behaviour, report=None):
